@@ -14,15 +14,18 @@ import vlib, gdlib
 from gdlib import NAMES, CSIZE, NCOMP, TSIZE, ISFLOAT, EXT, ENCS
 
 PID = "C13"
-KEY_TEXT = "alter_encoding-or-move/text<->binary/non-native-byte-order/no-swap"
-KEY_RETYPE = "alter_raw/type-change-recode/non-native-byte-order/unswapped-convert"
-KEY_ENDTEXT = "alter_endianness/text-encoded-fragment/GD_E_UNCLEAN_DB"
-KEY_ENDARG = "alter_endianness/byte_sex-with-ARM-flag-or-0-or-both/GD_E_ARGUMENT"
-KEY_TOSIE = "recode-to-sie/more-than-one-copy-buffer/one-sample-lost-per-buffer"
+KEY_TEXT = "regression/alter_encoding-or-move/text<->binary/non-native-byte-order/no-swap"
+KEY_RETYPE = "regression/alter_raw/type-change-recode/non-native-byte-order/unswapped-convert"
+KEY_ENDTEXT = "regression/alter_endianness/text-encoded-fragment/GD_E_UNCLEAN_DB"
+KEY_ENDARG = "alter_endianness/byte_sex-0-or-both-endian-bits/GD_E_ARGUMENT-vs-man-page"
+KEY_ENDARG_ARM = "regression/alter_endianness/byte_sex-with-ARM-flag/GD_E_ARGUMENT"
+KEY_TOSIE = "regression/recode-to-sie/more-than-one-copy-buffer/one-sample-lost-per-buffer"
 KEY_SUBENC = "regression/alter_raw-recode/encoding-other-than-none/temporary-file-closed-with-wrong-codec/data-destroyed"
-KEY_FOFF_OOP = "alter_frameoffset/decrease/out-of-place-encoding/copies-input-instead-of-padding"
+KEY_FOFF_OOP = "regression/alter_frameoffset/decrease/out-of-place-encoding/copies-input-instead-of-padding"
 KEY_STALESIZE = "regression/alter_raw/type-widened/same-handle-getdata/stale-sample-size/heap-overflow"
-KEY_SAMEHANDLE = "alter_encoding/from-lzma-or-bzip2/same-handle-read/EBADF"
+KEY_LZMASEEK = "regression/alter_frameoffset/lzma/temporary-file-seek-takes-decoder-branch/GD_E_IO"
+KEY_FOFF0 = "regression/restructure+reopen/included-fragment-with-frameoffset-0-under-parent-with-nonzero-offset/directive-not-written"
+KEY_SAMEHANDLE = "regression/alter_encoding/from-lzma-or-bzip2/same-handle-read/EBADF"
 GD_REN_DATA = 1
 
 
@@ -238,8 +241,8 @@ def main():
                 k2 = KEY_TEXT
             if c["kind"] == "alter_endianness" and enc == "text" and not okop and opres.split()[2:] == ["1"]:
                 k2 = KEY_ENDTEXT
-            if c["kind"] == "alter_endianness" and not okop and opres.split()[1:] == ["-24", "0"] and "arm" not in "" and c["script"][c["iop"]].split()[2] == "1":
-                k2 = KEY_ENDARG
+            if c["kind"] == "alter_endianness" and not okop and opres.split()[1:] == ["-24", "0"] and c["script"][c["iop"]].split()[2] == "1":
+                k2 = KEY_ENDARG_ARM
             tgt_sie = (c["kind"] == "alter_encoding" and c["note"].endswith("->sie")) or \
                 (c["kind"] in ("alter_endianness", "alter_raw-type", "alter_raw-spf", "alter_frameoffset") and enc == "sie")
             nwant = len(c["want"]) // NCOMP[c["ta"]]
@@ -249,6 +252,8 @@ def main():
                 k2 = KEY_RETYPE
             if c["kind"] == "alter_frameoffset" and enc in ("gzip", "bzip2", "lzma") and okop and c["script"][c["iop"]].split()[1] < str(c["off"]):
                 k2 = KEY_FOFF_OOP
+            if c["kind"] == "alter_frameoffset" and enc == "lzma" and not okop and opres.split()[1:] == ["-5", "0"]:
+                k2 = KEY_LZMASEEK
             if c["kind"] == "alter_encoding" and enc in ("lzma", "bzip2") and okop and (a1 is None or a1[1] == -5) and a2 and a2[2] == c["want"]:
                 k2 = KEY_SAMEHANDLE
             spec_bad.setdefault(k2, []).append((c, why))
@@ -259,6 +264,145 @@ def main():
                 nontriv.add((c["kind"], c["note"], t, sex, tuple(c["comps"])))
         if len(chk.cov["samples"]) < 8 and chk.cov["evaluations"] % 97 == 5:
             chk.sample({"kind": c["kind"], "what": c["note"], "type": NAMES[t], "endian": sex, "frameoffset": c["off"], "spf": c["spf"], "n": c["n"], "op": c["script"][c["iop"]], "result": opres})
+    # ------------------------------------------------------------------ E: two fragments, gd_move / gd_rename with data,
+    # GD_ALL_FRAGMENTS, sequences of operations, fields that refer to the restructured one
+    open_keys = set(f["key"] for f in chk.known) if not os.environ.get("VERIF_ASSUME_FIXED") else set()
+    scen = []
+    nscen = 60 if not chk.thorough else 600
+    import struct as _st
+    for si in range(nscen):
+        t = rng.choice([1, 4, 9])
+        tsz = TSIZE[t]
+        spf = rng.choice([1, 2])
+        # stay inside the region the partial theorems cover while the corresponding findings are open
+        text_ok_sexes = ["l"] if KEY_TEXT in open_keys else ["l", "b"]
+        encs = [rng.choice(ENCS), rng.choice(ENCS)]
+        sexs = [rng.choice(["l", "b"]), rng.choice(["l", "b"])]
+        offs = [rng.choice([0, 1, 3]), rng.choice([0, 1, 3])]
+        nfr = rng.choice([3, 6, 20])
+        n = nfr * spf
+        if ISFLOAT[t]:
+            comps = [_st.unpack("<Q", _st.pack("<d", float(rng.randint(-40, 40))))[0] for _ in range(n)]
+        else:
+            comps = [rng.randint(0, 100) for _ in range(n)]
+        d = os.path.join(root, "s%d" % si); os.mkdir(d)
+        open(os.path.join(d, "format"), "w").write(
+            "/ENCODING %s\n%s\n/FRAMEOFFSET %d\na RAW %s %d\nl LINCOM a 2 1\np PHASE a 1\n/INCLUDE sub.format\n" % (
+                encs[0], gdlib.sex_directive(sexs[0]), offs[0], NAMES[t], spf))
+        open(os.path.join(d, "sub.format"), "w").write(
+            "/ENCODING %s\n%s\n/FRAMEOFFSET %d\nc RAW UINT8 1\n" % (encs[1], gdlib.sex_directive(sexs[1]), offs[1]))
+        F0 = 4          # data start at frame 4: above every frame offset in play, so nothing is dropped
+        state = {"frag": 0, "name": "a", "enc": list(encs), "sex": list(sexs), "off": list(offs)}
+        ops = []
+        for _ in range(rng.randint(1, 4)):
+            k = rng.choice(["move", "rename", "enc", "end", "off", "enc_all", "end_all", "off_all"])
+            fr = state["frag"]
+            if k == "move":
+                nf_ = 1 - fr
+                ops.append(("move %s %d %d" % (state["name"], nf_, GD_REN_DATA), ("frag", nf_)))
+            elif k == "rename":
+                nn = "z%d" % len(ops)
+                ops.append(("rename %s %s %d" % (state["name"], nn, GD_REN_DATA | 2), ("name", nn)))
+            elif k in ("enc", "enc_all"):
+                e2 = rng.choice(ENCS)
+                ops.append(("alter_encoding %s %d 1" % (e2, -1 if k == "enc_all" else fr), ("enc", e2, k == "enc_all")))
+            elif k in ("end", "end_all"):
+                s2 = rng.choice(["l", "b"])
+                ops.append(("alter_endianness %s 0 %d 1" % ("big" if s2 == "b" else "little", -1 if k == "end_all" else fr), ("sex", s2, k == "end_all")))
+            else:
+                o2 = rng.choice([0, 1, 3])
+                ops.append(("alter_frameoffset %d %d 1" % (o2, -1 if k == "off_all" else fr), ("off", o2, k == "off_all")))
+            # track the state and drop operations that enter a region with an open finding
+            eff = ops[-1][1]
+            st2 = {x: (list(v) if isinstance(v, list) else v) for x, v in state.items()}
+            if eff[0] == "frag":
+                st2["frag"] = eff[1]
+            elif eff[0] == "name":
+                st2["name"] = eff[1]
+            elif eff[0] in ("enc", "sex", "off"):
+                for f_ in ((0, 1) if eff[2] else (fr,)):
+                    st2[eff[0]][f_] = eff[1]
+            risky = False
+            # every RAW field that passes through _GD_MogrifyFile: (size in bytes of its data, from, to)
+            passes = []
+            fa, fb = state["frag"], st2["frag"]
+            passes.append((((F0 - min(state["off"][fa], st2["off"][fb])) * spf + n) * tsz, (state["enc"][fa], state["sex"][fa], state["off"][fa]), (st2["enc"][fb], st2["sex"][fb], st2["off"][fb]), eff[0] == "frag"))
+            passes.append((5, (state["enc"][1], "l", state["off"][1]), (st2["enc"][1], "l", st2["off"][1]), False))
+            for nbytes, (ein, sin, oin), (eout, sout, oout), moved in passes:
+                if (ein, sin, oin) == (eout, sout, oout) and not moved:
+                    continue
+                if KEY_TEXT in open_keys and "text" in (ein, eout) and ("b" in (sin, sout)):
+                    risky = True
+                if KEY_TOSIE in open_keys and eout == "sie" and nbytes > 64:
+                    risky = True
+                if KEY_FOFF_OOP in open_keys and eout in ("gzip", "bzip2") and oout < oin:
+                    risky = True
+                if KEY_LZMASEEK in open_keys and eout == "lzma" and oout != oin:
+                    risky = True
+                if KEY_SAMEHANDLE in open_keys and ein == "lzma" and eout != "lzma":
+                    risky = True
+                if KEY_FOFF_OOP in open_keys and moved and ein != eout and oin != oout:
+                    risky = True      # gd_move across encodings AND offsets takes the same wrong branch of _GD_DoSeek
+            if eff[0] == "sex" and KEY_ENDTEXT in open_keys and "text" in [state["enc"][f_] for f_ in ((0, 1) if eff[2] else (fr,))]:
+                risky = True
+            if risky:
+                ops.pop()
+            else:
+                state = st2
+        if not ops:
+            continue
+        sc = ["open %s rw" % d, "put a %d %d 0 %d %s" % (t, F0, n, gdlib.hexs(comps)), "put c 1 %d 0 5 1 2 3 4 5" % F0, "close", "open %s rw" % d]
+        sc += [o for o, _ in ops]
+        nm = state["name"]
+        iget = len(sc)
+        sc += ["get %s %d %d 0 %d" % (nm, t, F0, n + 2), "get l 9 %d 0 %d" % (F0, n + 2), "get p %d %d 0 %d" % (t, F0, n + 2), "get c 1 %d 0 7" % F0, "close",
+               "open %s rw" % d, "get %s %d %d 0 %d" % (nm, t, F0, n + 2), "get l 9 %d 0 %d" % (F0, n + 2), "get c 1 %d 0 7" % F0, "close"]
+        scen.append({"dir": d, "script": sc, "iget": iget, "nops": len(ops), "t": t, "comps": comps, "n": n, "offs": list(state["off"]),
+                     "desc": "%s %s/%s %s/%s off %s" % (NAMES[t], encs[0], encs[1], sexs[0], sexs[1], offs)})
+    with ThreadPoolExecutor(max_workers=vlib.NPROC) as ex_:
+        souts = list(ex_.map(lambda c: vlib.sh([exe], inp=("\n".join(c["script"]) + "\n").encode(), timeout=300), scen))
+    for c, (rc, out) in zip(scen, souts):
+        chk.cov["evaluations"] += 1
+        dist["scenario"] = dist.get("scenario", 0) + 1
+        r = out.rstrip("\n").split("\n")
+        t = c["t"]
+        why = None
+        if rc != 0 or len(r) != len(c["script"]):
+            why = "gdrun died rc=%d: %s" % (rc, out[-200:])
+        else:
+            for k in range(5, 5 + c["nops"]):
+                if r[k].split()[1:] != ["0", "0"]:
+                    why = "%s -> %s" % (c["script"][k], r[k]); break
+            if not why:
+                if ISFLOAT[t]:
+                    vals = [_st.unpack("<d", _st.pack("<Q", z))[0] for z in c["comps"]]
+                else:
+                    vals = [float(z) for z in c["comps"]]
+                wl = [_st.unpack("<Q", _st.pack("<d", 2 * v + 1))[0] for v in vals]
+                wp = c["comps"][1:]
+                ig = c["iget"]
+                for idx, want, nm_ in ((ig, c["comps"], "field"), (ig + 1, wl, "LINCOM"), (ig + 2, wp, "PHASE"), (ig + 3, [1, 2, 3, 4, 5], "other fragment's field"),
+                                       (ig + 6, c["comps"], "field after reopen"), (ig + 7, wl, "LINCOM after reopen"), (ig + 8, [1, 2, 3, 4, 5], "other fragment's field after reopen")):
+                    g = gdlib.parse_get(r[idx])
+                    if g is None or g[1] != 0 or g[2] != want:
+                        why = "%s: %s reads %s, expected %s" % (" ; ".join(c["script"][5:5 + c["nops"]]), nm_, r[idx][:120], gdlib.hexs(want)[:120])
+                        break
+        if why and "after reopen" in why and c["offs"][1] == 0 and c["offs"][0] != 0:
+            spec_bad.setdefault(KEY_FOFF0, []).append(({"kind": "scenario", "dir": c["dir"], "t": t, "sex": "", "off": 0, "spf": 0, "n": c["n"], "script": c["script"], "enc": ""}, c["desc"] + ": " + why))
+        elif why:
+            spec_bad.setdefault("scenario/" + c["script"][5].split()[0], []).append(({"kind": "scenario", "dir": c["dir"], "t": t, "sex": "", "off": 0, "spf": 0, "n": c["n"], "script": c["script"], "enc": ""}, c["desc"] + ": " + why))
+        else:
+            nontriv.add(("scenario", tuple(c["script"][5:5 + c["nops"]]), c["desc"]))
+    dd_ = os.path.join(root, "endarg"); os.mkdir(dd_)
+    open(os.path.join(dd_, "format"), "w").write("/ENCODING none\na RAW UINT16 1\n")
+    rc, out = vlib.sh([exe], inp=("open %s rw\nalter_endianness_raw 0 0 0\nalter_endianness_raw 12 0 0\nalter_endianness_raw 8 0 0\nclose\n" % dd_).encode(), timeout=60)
+    r_ = out.strip().split("\n")
+    chk.cov["evaluations"] += 1
+    if len(r_) >= 4 and r_[3] != "alter_endianness_raw 0 0":
+        spec_bad.setdefault("alter_endianness/little", []).append(({"kind": "arg", "dir": dd_, "t": 3, "sex": "l", "off": 0, "spf": 1, "n": 0, "script": r_, "enc": "none"}, "gd_alter_endianness(GD_LITTLE_ENDIAN) -> " + r_[3]))
+    if len(r_) >= 3 and (r_[1] != "alter_endianness_raw 0 0" or r_[2] != "alter_endianness_raw 0 0"):
+        chk.violation(KEY_ENDARG, "gd_alter_endianness with byte_sex 0 -> '%s', with GD_BIG_ENDIAN|GD_LITTLE_ENDIAN -> '%s'; gd_alter_endianness(3) documents both as valid" % (r_[1], r_[2]),
+                      {"kind": "impl-vs-spec", "script": ["alter_endianness_raw 0 0 0", "alter_endianness_raw 12 0 0"], "got": r_})
     if chk.thorough:
         try:
             impl_a = vlib.build_impl("asan", gdlib.HOOKS + " -fsanitize-recover=all")
